@@ -10,7 +10,10 @@ list only ever names model files that exist in /verif/lean)."""
 import json
 import os
 
-PREDICATES = []
+PREDICATES = [
+    # C12: shape of the executed formulas on non-finite values (both formulas are (a + b*x)/(c + d*x) with d = 0 ...)
+    dict(tag="valshape", pred="UnitRow.valShape", imports=["Barril.Model.Valid"], kinds=["posc", "nocat"], over="units"),
+]
 
 _extra = os.environ.get("BARRIL_EXTRA_TABLEPREDS")
 if _extra and os.path.exists(_extra):
